@@ -328,6 +328,16 @@ def cfg_cmd(rng, s, workdir, fam_wraps, uniq, keep_data=False):
     s = dict(s)
 
     def datafile(tag):
+        if rng.random() < 0.3 and len(s["data"]):
+            # a firmware file rebuilt in place by a reproducible build: same path, same size, same (clamped) time stamp as
+            # the file an earlier build of this process read - other content
+            rot = os.path.join(os.path.dirname(os.path.abspath(workdir)), "rebuilt_in_place")
+            os.makedirs(rot, exist_ok=True)
+            p = os.path.join(rot, f"fw_{len(s['data'])}_{next(uniq)}.bin")
+            with open(p, "wb") as f:
+                f.write(s["data"])
+            os.utime(p, (1_600_000_000, 1_600_000_000))
+            return p
         return os.path.basename(write(workdir, f"d{next(uniq)}_{tag}.bin", s["data"]))
 
     def words_of(data):
